@@ -25,21 +25,10 @@ Definition c18_off_all_segmented_ok (cfg : vconfig) (st : fstep) : bool :=
        || (f_last_remote_window (fs_post st) <=? f_seg_offset (fs_post st) - f_seg_offset (fs_pre st))
   else true.
 
-(* (c18_drain_sends) Nagle on or off: after a completed poll with the peer's FIN not seen and
-   the peer's window open, an empty segment table means that no buffered byte is left
-   unsegmented: whatever was buffered while the pipe was drained has been segmented in that
-   poll (and, the table being empty, there was nothing). *)
-Definition c18_drain_ok (cfg : vconfig) (st : fstep) : bool :=
-  if c18_completed st
-     && negb (is_remote_fin_or_later (f_state (fs_post st)))
-     && (0 <? f_last_remote_window (fs_post st))
-     && negb (nonempty (f_segs (fs_post st)))
-  then f_tx_len (fs_post st) <=? f_seg_len_bytes (fs_post st)
-  else true.
-
-(* the same clause in the positive form of the property text: the table is empty BEFORE the poll
-   and no acknowledgement can arrive, data is buffered => the table is not empty afterwards.
-   (Implied by c18_drain_ok; kept as a separate predicate because it is the sentence of §6.) *)
+(* (c18_drain_sends) Nagle on or off: after a completed poll with the peer's FIN not seen and the
+   peer's window open, buffered bytes that are not segmented (ring longer than the segmented
+   length) imply a non-empty segment table: when the pipe has drained (empty table), whatever
+   is buffered is segmented in that poll - Nagle never holds data back with nothing in flight. *)
 Definition c18_drain_sends_ok (cfg : vconfig) (st : fstep) : bool :=
   if c18_completed st
      && negb (is_remote_fin_or_later (f_state (fs_post st)))
